@@ -18,6 +18,7 @@ from hugr.std.collections.array import EXTENSION as ARRAY_EXTENSION
 from hugr.std.collections.borrow_array import EXTENSION as BORROW_ARRAY_EXTENSION
 from typing_extensions import assert_never
 
+from guppylang_internals import _verif
 from guppylang_internals.checker.core import (
     FieldAccess,
     Globals,
@@ -487,6 +488,8 @@ def require_monomorphization(params: Sequence[Parameter]) -> set[Parameter]:
                     mono_params.add(params[var.idx])
             case _:
                 pass
+    if _verif.ON:
+        mono_params = _verif.sched_set(mono_params, "require_monomorphization")
     return mono_params
 
 
